@@ -271,3 +271,16 @@ ALL_BY_NAME = dict((e[0], e) for e in ALL)
 STATEFUL = [e[0] for e in B if e[0].startswith(('sort-', 'cache', 'distinct-b', 'aggregate-b', 'hash', 'join', 'leftjoin',
                                                 'outerjoin', 'lookupjoin', 'antijoin', 'rightjoin', 'complement',
                                                 'intersection', 'mergesort', 'merge-'))]
+
+EB('mergesort-presorted-other', lambda t: petl.mergesort(t, OTHER, key='a', presorted=True))
+EB('mergesort-header-other', lambda t: petl.mergesort(t, OTHER, key='a', header=['a', 'z', 'b']))
+EB('annex-3', lambda t: petl.annex(t, OTHER, t), stream=True)
+EB('cat-missing', lambda t: petl.cat(t, OTHER, missing='-'), stream=True)
+EB('stack-missing-trim', lambda t: petl.stack(t, OTHER, missing='-', trim=True, pad=True), stream=True)
+EB('addfield-row-list', lambda t: petl.addfield(t, 'd', lambda r: list(r)), stream=True)
+EB('movefield-last', lambda t: petl.movefield(t, 'a', 2), stream=True)
+EB('fillright-missing', lambda t: petl.fillright(t, missing=2), stream=True)
+EB('fillleft-missing', lambda t: petl.fillleft(t, missing=2), stream=True)
+EB('filldown-missing', lambda t: petl.filldown(t, 'a', missing=2), stream=True)
+ALL = U + B
+ALL_BY_NAME = dict((e[0], e) for e in ALL)
